@@ -545,7 +545,7 @@ def graph_case(ctx, lim, i, pinned=None):
         ctx.held(fingerprint=f"{case}|{mode}|{len(all_nodes)}|{len(discarded)}|{len(indirect)}",
                  nontrivial=len(discarded) >= 1 and len(indirect) >= 1,
                  sample={"mode": mode, "features": g["features"], "sections": len(all_nodes), "closure": len(reach),
-                         "discarded": len(discarded), "kept-only-indirectly": len(indirect)} if i < 3 else None)
+                         "discarded": len(discarded), "kept-only-indirectly": len(indirect)} if isinstance(i, int) and i < 3 else None)
 
 
 # ---- proggen programs ---------------------------------------------------------------------------------
